@@ -264,6 +264,7 @@ func (v *FnVerifier) reset() {
 	v.declared = map[string]bool{}
 	v.siteN = map[string]int{}
 	v.loopsFound = map[int]bool{}
+	v.pending = nil
 	v.now0 = v.ctx.Const("now!0", SInt)
 	v.entry = &State{arr: map[string]Term{}, now: v.now0}
 }
@@ -388,6 +389,7 @@ func (v *FnVerifier) runRoot(fn *ssa.Function, fc *FuncContract) {
 	if v.dry {
 		return
 	}
+	v.flushPending()
 	// ---- ensures at every return
 	var exitReach []Term
 	for _, ex := range f.exits {
